@@ -73,6 +73,8 @@ func main() {
 		res = runLabelsHash(a)
 	case "cfghash":
 		res = runCfgHash(a)
+	case "inject":
+		res = runInject(a)
 	default:
 		fmt.Fprintln(os.Stderr, "unknown engine", a.engine)
 		os.Exit(2)
